@@ -145,7 +145,7 @@ def gen_idperm_pair(rng):
     for pi in range(rng.randint(2, 3)):
         par = etree.SubElement(L, rng.choice(['l', 'q']))
         par.set(XMLID_, 'p%d' % pi)
-        for _ in range(rng.randint(1, 5)):
+        for _ in range(rng.choice([1, 2, 3, 4, 5, 5, 6, 7])):      # five and more: a child can keep its index while the others permute across it
             c = etree.SubElement(par, rng.choice(['c', 'x', 's']))
             c.set(XMLID_, 'n%d' % n)
             n += 1
